@@ -85,10 +85,15 @@ def h_backoff(params, model=None):
 
     def fn():
         e = Env(model)
-        mn, mx, mult = e.real("min"), e.real("max"), e.real("mult")
+        mn, mx = e.real("min"), e.real("max")
+        if params.get("mults"):
+            # multiplier from a finite set: all queries are then linear (z3's nonlinear procedure answers 'unknown' on degree >= 4 paths)
+            mult = [Fraction(x) for x in params["mults"]][e.choose("mult_choice", len(params["mults"]))]
+        else:
+            mult = e.real("mult")
+            e.assume(mult >= 1)
         e.assume(mn > 0)
         e.assume(mx >= mn)
-        e.assume(mult >= 1)
         outcomes = [e.choose("outcome", len(OUTCOMES)) for _ in range(K)]
         sleeps, calls = [], []
 
@@ -338,7 +343,8 @@ def signature(harness, params, rec):
 def jobs(tier):
     q = tier == "quick"
     return [
-        {"harness": "backoff", "params": {"K": 4 if q else 5}, "label": "backoff/K=%d" % (4 if q else 5), "smt_dump": 4 if q else 40},
+        {"harness": "backoff", "params": {"K": 4}, "label": "backoff/K=4/mult-symbolic", "smt_dump": 4 if q else 40},
+    ] + ([] if q else [{"harness": "backoff", "params": {"K": 6, "mults": ["1", "3/2", "2", "10"]}, "label": "backoff/K=6/mult-in-{1,1.5,2,10}"}]) + [
         {"harness": "stop", "params": {"K": 3 if q else 4}, "label": "stop/K=%d" % (3 if q else 4)},
         {"harness": "notify", "params": {"N": 4 if q else 6}, "label": "notify/N=%d" % (4 if q else 6)},
         {"harness": "triples", "params": {}, "label": "derived-triples"},
@@ -351,7 +357,7 @@ def meta(tier):
         "explanation": "M1: the real Runnable.run/__increment_backoff/backoff/nothing_happened/stop/start and NotificationManager.do/notify/stop run "
                        "in one thread with min/max/mult as z3 reals; each requested sleep is proved equal to min(max, min*mult^(k-1)) by a nonlinear-real "
                        "validity query on every outcome sequence; stop point, finality and handler failures are solver-enumerated choices.",
-        "bounds": {"iterations": "K = 4 (thorough 5) outcomes from %s" % OUTCOMES, "stop": "K = 3 (4), stop from do() or until(), final or not",
+        "bounds": {"iterations": "K = 4 with a symbolic multiplier (nonlinear; z3 answers unknown on some degree-4 paths at K = 5, so longer sequences - thorough K = 6 - use a multiplier from {1, 3/2, 2, 10} with min/max symbolic, all-linear); outcomes from %s" % OUTCOMES, "stop": "K = 3 (4), stop from do() or until(), final or not",
                    "notifications": "N = 4 (6), any subset of raising handler calls, stop marker at any position"},
         "symbolic": ["min_backoff, max_backoff, mult_backoff: reals with 0 < min <= max, mult >= 1", "outcome of every iteration", "stop iteration/finality/origin",
                      "which handler calls raise; where the stop marker sits", "providers' default_sleep (derived triples)"],
